@@ -2,6 +2,7 @@ import numpy as np
 import pandas as pd
 from ..entities.paramStruct import ParamStruct
 from .compute_crop_calendar import compute_crop_calendar
+from copy import deepcopy
 from typing import TYPE_CHECKING
 
 if TYPE_CHECKING:
@@ -106,15 +107,18 @@ def read_model_parameters(
     sim_end_date = clock_struct.simulation_end_date
 
     if crop.harvest_date is None:
-        crop = compute_crop_calendar(
-            crop,
+        # only the time to maturity is needed here: derive it on a copy, so that
+        # the crop's calendar is converted once (in compute_variables) whether or
+        # not a harvest date was given
+        crop_calendar = compute_crop_calendar(
+            deepcopy(crop),
             clock_struct.planting_dates,
             clock_struct.simulation_start_date,
             clock_struct.simulation_end_date,
             clock_struct.time_span,
             weather_df,
         )
-        mature = int(crop.MaturityCD + 30)
+        mature = int(crop_calendar.MaturityCD + 30)
         plant = pd.to_datetime("1990/" + crop.planting_date)
         harv = plant + np.timedelta64(mature, "D")
         new_harvest_date = str(harv.month) + "/" + str(harv.day)
